@@ -27,6 +27,7 @@ type srcRenderer struct {
 	form string // declaration form of generators in coMode: "" (function) | method | generic | lit | nestedlit
 	fn   string // name of the function being rendered (package-level helper names derive from it)
 	box  bool   // element type *rt.Box instead of int
+	boxV bool   // ... element type rt.BoxV (a struct VALUE: the yielded expression is a composite literal)
 }
 
 func (sr *srcRenderer) kvName(n string) string {
@@ -159,6 +160,9 @@ func (sr *srcRenderer) vexpr(v any) string {
 	case "pv":
 		return "pwrap(" + str(m["n"]) + ")"
 	case "fresh":
+		if sr.boxV {
+			return "rt.BoxV{V: " + sr.vexpr(m["e"]) + "}"
+		}
 		return "&rt.Box{V: " + sr.vexpr(m["e"]) + "}"
 	case "gets":
 		return "get()"
@@ -445,6 +449,10 @@ func (sr *srcRenderer) unsup(m J, ind string) string {
 		t = fmt.Sprintf("for v := range rt.Seq3 {\n\t%s\n}\n", Y("v"))
 	case "rtparam":
 		t = fmt.Sprintf("for _, v := range ts {\n\t%s\n}\n", Y("v"))
+	case "parenyield":
+		t = "(" + Y("a") + ")\n"
+	case "rparrdefer":
+		t = fmt.Sprintf("for _, v := range &uarr {\n\tdefer r.E(%d, v, 0)\n}\n", id)
 	case "lrange":
 		t = fmt.Sprintf("L:\n\tfor _, v := range []int{10, 20} {\n\t\tfor r.T(%d) {\n\t\t\t%s\n\t\t\tcontinue L\n\t\t}\n\t\tr.E(%d, v, 0)\n\t}\n", id, Y("v"), id+2)
 	case "clo-lrange":
@@ -656,6 +664,9 @@ func (sr *srcRenderer) genFunc(name string, prog []any, trailing string) string 
 	elem, natIter, pull := "int", "*rt.NIter", "rt.Pull(func(yield func(int) bool) {"
 	if sr.box {
 		elem, natIter, pull = "*rt.Box", "*rt.NIterT[*rt.Box]", "rt.PullT(func(yield func(*rt.Box) bool) {"
+		if sr.boxV {
+			elem, natIter, pull = "rt.BoxV", "*rt.NIterT[rt.BoxV]", "rt.PullT(func(yield func(rt.BoxV) bool) {"
+		}
 	}
 	prolog := ""
 	if usesKind(prog, "callf") {
@@ -670,7 +681,7 @@ func (sr *srcRenderer) genFunc(name string, prog []any, trailing string) string 
 	}
 	tailDecl := pkgVars(prog, name)
 	uk := unsupKind(prog)
-	if uk == "rparr" || uk == "clo-rparr" {
+	if uk == "rparr" || uk == "clo-rparr" || uk == "rparrdefer" {
 		prolog += "\tuarr := [3]int{10, 20, 30}\n"
 	}
 	if sr.md == coMode {
